@@ -65,6 +65,9 @@ func tableFuncs(p *Program, pkgPath, global string) []*ssa.Function {
 // name of the table of the iterating operators, found by role on each run
 var c10ExprTable string
 
+// c10EvalObj: name of the evaluator object's type, found by role on each run.
+var c10EvalObj = "exprEval"
+
 func checkC10(c *Check) {
 	p := c.P
 	c.Explanation = "C10 (structural clauses of purity): (1) every function registered in the evaluator's operator tables (valueFunctions, exprFunctions, unaryFunctions — folded from the map literals) treats its *sysl.Value operands as read-only: its bottom-up effect summary (same engine as R-ORDER) contains no store, map update or append through an operand; the only scope write allowed to a table function is a binding under its scope-variable parameter; (2) no append in pkg/eval extends a slice that was loaded from a field of a pointer parameter unless the result is stored back to that same field, and no append on a slice parameter has its result retained in another object (the aliasing shapes behind 'list concatenation corrupts its left operand'); (3) every scope-variable binding is followed on all paths by its deletion, and the dispatch site of the table-driven iterating operators saves the previous binding before the call and restores it after the deletion; (4) the set-typed transform path appends through a function whose append is control-dependent on a failed equality scan, and the set-union operator builds its result from the keys of Go maps; (5) no map iteration in pkg/eval reaches list or string construction unsorted (R-ORDER). Agreement with the expression semantics is not decided."
@@ -131,6 +134,18 @@ func checkC10(c *Check) {
 			tables[g] = tableFuncs(p, evalPkg, roleOf[g])
 		}
 		total += len(tables[g])
+	}
+	// the evaluator object, by role: the struct of the package that the iterating
+	// operators of the table take as their first parameter
+	c10EvalObj = "exprEval"
+	for _, f := range tables["exprFunctions"] {
+		if len(f.Params) > 0 {
+			if n := namedOf(f.Params[0].Type()); n != nil && n.Obj().Pkg() != nil && n.Obj().Pkg().Path() == evalPkg {
+				if _, isStruct := n.Underlying().(*types.Struct); isStruct {
+					c10EvalObj = n.Obj().Name()
+				}
+			}
+		}
 	}
 	c.Counts["table_functions"] = total
 	if len(tables["valueFunctions"]) < 20 || len(tables["exprFunctions"]) < 5 {
@@ -1212,7 +1227,7 @@ func scopeSavedAndRestored(p *Program, f *ssa.Function, depth int, seen map[*ssa
 // is reported.
 func c10State(c *Check) {
 	p := c.P
-	isEvalObj := func(t types.Type) bool { return typeIs(t, evalPkg, "exprEval") }
+	isEvalObj := func(t types.Type) bool { return typeIs(t, evalPkg, c10EvalObj) }
 	// rootField: the first field of exprEval on the access path of addr, or the
 	// package-level variable it starts from.
 	var rootOf func(v ssa.Value, d int) (string, bool)
@@ -1223,7 +1238,7 @@ func c10State(c *Check) {
 		switch x := v.(type) {
 		case *ssa.FieldAddr:
 			if own, fld, base, ok := fieldOfAddr(x); ok {
-				if own != nil && own.Obj().Name() == "exprEval" && own.Obj().Pkg() != nil && own.Obj().Pkg().Path() == evalPkg {
+				if own != nil && own.Obj().Name() == c10EvalObj && own.Obj().Pkg() != nil && own.Obj().Pkg().Path() == evalPkg {
 					return "exprEval." + fld, true
 				}
 				return rootOf(base, d+1)
